@@ -92,17 +92,17 @@ class Recorder:
                             ','.join(impl.canon_t(v, t.type) for v, t in zip(a, pos)),
                             ','.join(sorted('%s=%s' % (k, impl.canon_t(kw[k], named[k].type)) for k in kw))))
                     return cb
-                Entity.subscribe_method_call(en, m.get_name(), mk(en, m)); self.mkeys.append(en + '_' + m.get_name())
+                Entity.subscribe_method_call(en, m.get_name(), mk(en, m)); self.mkeys.append((en, m.get_name()))
             for p in ed.properties()._internal_index:
                 def mkp(en, p):
                     def cb(entity, value): trace.append('CP %s_%s %d %s' % (en, p.get_name(), entity.id, impl.canon_t(value, p._type)))
                     return cb
-                Entity.subscribe_property_change(en, p.get_name(), mkp(en, p)); self.pkeys.append(en + '_' + p.get_name())
+                Entity.subscribe_property_change(en, p.get_name(), mkp(en, p)); self.pkeys.append((en, p.get_name()))
                 def mkn(en, p):
                     key = en + '_' + p.get_name()
                     def cb(entity, obj): trace.append('CN %s %d %s' % (key, entity.id, impl.canon(obj)))
                     return cb
-                Entity.subscribe_nested_property_change(en, p.get_name(), mkn(en, p)); self.nkeys.append(en + '_' + p.get_name())
+                Entity.subscribe_nested_property_change(en, p.get_name(), mkn(en, p)); self.nkeys.append((en, p.get_name()))
         # payload consumption: observe the stream the library hands to the decoder
         self.cur = [None]
         cur = self.cur
@@ -128,15 +128,32 @@ class Recorder:
                     if name is not None:
                         trace.append('LP %s_%s %s' % (ent.get_name(), name, (len(payload.getvalue()) - payload.tell()) if ok else 'ERR'))
         Entity.call_client_method = call; Entity.set_client_property = setp
+        self.install_pp()
+
+    def install_pp(self):
+        """wrap the extension point: remember the class of the packet being processed; optional per-packet snapshots"""
+        pl = self.pl; cur = self.cur
+        self.snap_eid = None; self.snaps = {}; self.pkt_index = [-1]
+        orig_ds = pl._deserialize_packet
+        def ds(packet):
+            self.pkt_index[0] += 1
+            return orig_ds(packet)
+        pl._deserialize_packet = ds
         orig_pp = pl._process_packet
         def pp(time, packet):
             cur[0] = type(packet).__name__
-            return orig_pp(time, packet)
+            try:
+                return orig_pp(time, packet)
+            finally:
+                if self.snap_eid is not None:
+                    e = pl._battle_controller.entities.get(self.snap_eid)
+                    if e is not None:
+                        types = {p.get_name(): p._type for p in e._spec.properties()._internal_index}
+                        self.snaps[self.pkt_index[0]] = sorted('%s=%s' % (k, impl.canon_t(v, types[k])) for k, v in e.properties['client'].items())
         pl._process_packet = pp
 
     def subs(self):
-        uniq = lambda ks: [(k, 1) for k in dict.fromkeys(ks)]
-        return uniq(self.mkeys), uniq(self.pkeys), uniq(self.nkeys)
+        return list(self.mkeys), list(self.pkeys), list(self.nkeys)
 
     def close(self):
         E = self.Entity
@@ -152,7 +169,7 @@ def model_stream(dialect, rd, subs, stream, mode='stream', workdir=None):
         rawdefs.write_case(case, dialect, rd, *subs)
         with open(sf, 'wb') as f: f.write(stream)
         p = subprocess.run(['bash', '-c', 'ulimit -s unlimited; exec "$0" world "$1" "$2" "$3"', common.MODELRUN, case, sf, mode],
-                           capture_output=True, text=True, timeout=1800)
+                           capture_output=True, text=True, timeout=900)
         if p.returncode != 0: raise RuntimeError('modelrun world failed: ' + p.stderr[-800:])
         return [l for l in p.stdout.split('\n') if l]
     finally:
